@@ -201,4 +201,31 @@ PROPS = {
         assumptions=COMMON_ASSUME,
         partial=[],
     ),
+    "C07": dict(
+        level="proof",
+        exhaustive=True,
+        tables="ccsds",
+        native_decide_theorems=["ar4ja_profile_native", "ar4ja_tail_rank_native", "c2_facts_native", "ar4ja_r12_k1024_no_four_cycles_native",
+                                "ar4ja_profile_big_native", "ar4ja_tail_rank_big_native"],
+        extra_lean_targets_thorough=["LdpcV.Props.C07Big"],
+        extra_prop_files_thorough=["LdpcV/Props/C07Big.lean"],
+        harness_timeout=7200, model_timeout=7200,
+        trusted_base=[KERNEL + "; PLUS for the six theorems named *_native the axiom introduced by `native_decide` (`<theorem>._native.native_decide.ax_*`): the Lean "
+                      "compiler, IR interpreter and runtime are trusted for the evaluation of degree profiles, GF(2) ranks (up to 24576 x 24576 in the thorough tier) "
+                      "and 4-cycle tests on the expanded matrices (kernel evaluation is infeasible: 1022 x 8176 rank did not finish in 15 min with decide +kernel)", CORR,
+                      "the Blue Book is not available offline: the 'standard' side is the pinned table file lean/LdpcV/Spec/CcsdsTables.lean (theta, phi, M table, C2 "
+                      "circulants; generated by checklib/gen_tables.py from the source and committed) plus the M values of Table 7-2 and the AR4JA protograph degrees "
+                      "(extra blocks 4; base blocks 2,3,1,3 and the punctured block 6) written into the spec from memory; cross-checked by structure "
+                      "(permutation property of every pi_k, degree profile, invertible tail, C2 weights / rank 1020 / 4-cycle freedom)",
+                      "C2 'rank exactly 1020' is `rankBits = 1020` (size of an echelon basis spanning the row space); independence of a full-size basis is proved "
+                      "(rankBits_full_indep), the uniqueness of the basis size is not"],
+        rule=("EXHAUSTIVE over the codes: the six AR4JA codes with k <= 4096 and C2 in the quick tier, all nine AR4JA codes in the thorough tier: AR4JACode::new(rate,k).h() "
+              "and C2Code::new().h() are dumped (every row list in insertion order, every column as a sorted set) and compared entry by entry with the model built "
+              "from the pinned tables (toggle cancellation modelled); structural predicates re-evaluated on the dumped matrix (3M x (k+3M) with the Blue Book M, "
+              "protograph block-column degrees, rank of the last 3M columns = 3M; C2: 1022 x 8176, row weight 32, column weight 4, rank 1020, no 4-cycle); the table "
+              "text is regenerated from the current source and diffed against the pinned file; Encoder::from_h on the k = 1024 (thorough: 4096) matrices must succeed "
+              "and encode to codewords, girth_with_max(6) of rate 1/2 k=1024 and of C2 is reported (harness_extra); non-trivial = every code; distinct = 7 (10)"),
+        assumptions=COMMON_ASSUME,
+        partial=["uniqueness of the GF(2) rank (basis size) is not proved; the k = 16384 codes are only in the thorough tier (9 min native evaluation)"],
+    ),
 }
